@@ -126,8 +126,9 @@ pub fn check_triple(t: &Triple, acc: Option<&mut Acc>) -> Vec<String> {
         if !r.ok {
             out.push(format!("end-to-end reward from the collector over {ch} rejected: {}", r.err));
         }
-        sc.w.open_channels.insert("channel-424242".into());
-        let r = sc.apply(&sc.reward(&coll, "channel-424242", 500));
+        let other_ch = if t.channel == "channel-424242" { "channel-424243" } else { "channel-424242" };
+        sc.w.open_channels.insert(other_ch.into());
+        let r = sc.apply(&sc.reward(&coll, other_ch, 500));
         if r.ok {
             out.push("end-to-end reward from the collector over another channel accepted".into());
         }
@@ -176,7 +177,7 @@ pub fn check_triple(t: &Triple, acc: Option<&mut Acc>) -> Vec<String> {
             }
             acc.count("c09:follows_collector_update");
         }
-        let newch = "channel-31337";
+        let newch = if t.channel == "channel-31337" { "channel-31338" } else { "channel-31337" };
         let upd = json!({"update_config": {"protocol_chain_config": {"account_address_prefix": cfg.prefix, "ibc_token_denom": sc.s, "ibc_channel_id": newch, "minimum_liquid_stake_amount": "1", "oracle_address": null}}});
         let r = sc.w.exec(&sc.admin.clone(), &sc.q.clone(), &upd.to_string(), &[]);
         if r.ok {
